@@ -65,7 +65,9 @@ type Engine interface {
 // SubRunner is implemented by engines whose unit of work expands into several
 // executions (crash-point enumeration along one base execution).
 type SubRunner interface {
-	SubRuns(batch string, runIdx uint64, extra json.RawMessage) []json.RawMessage
+	// SubRuns may execute the base run (with the given tape, which every sub-run shares as its
+	// prefix) to learn where the fault points are.
+	SubRuns(t *testing.T, batch string, baseTape func() *rt.Tape, runIdx uint64, extra json.RawMessage) []json.RawMessage
 }
 
 var engines = map[string]Engine{}
